@@ -354,6 +354,71 @@ CHART_BOOL_ELEMENTS = {"autoTitleDeleted", "varyColors", "smooth", "invertIfNega
 _CHART_MEMBER = re.compile(r"^ppt/charts/chart\d+\.xml$")
 
 
+def rewrite_charts(data: bytes, how: str, seed: int = 0) -> bytes:
+    """Chart parts as PowerPoint leaves them after edits python-pptx never makes:
+    reverse_idx - c:idx / c:order values handed out in reverse document order (a series moved to another plot keeps its number, so an
+                  EARLIER plot can hold the highest index)
+    date1904    - the chart (c:date1904) and its embedded workbook (workbookPr/@date1904) use the 1904 date system
+    """
+    C_ = "{http://schemas.openxmlformats.org/drawingml/2006/chart}"
+    import io
+    import zipfile
+    out = []
+    flip_wb = set()
+    members = read_members(data)
+    if how == "date1904":
+        # embedded workbooks of the charts
+        for n, b in members:
+            if re.match(r"^ppt/charts/_rels/chart\d+\.xml\.rels$", n):
+                root = refpkg.parse(b)
+                for el in root:
+                    if isinstance(el.tag, str) and (el.get("Type") or "").endswith("/package"):
+                        flip_wb.add(refpkg.resolve("/" + n.replace("_rels/", "").replace(".rels", ""), el.get("Target"))[1:])
+    for n, b in members:
+        if _CHART_MEMBER.match(n):
+            root = refpkg.parse(b)
+            changed = False
+            if how == "reverse_idx":
+                sers = list(root.iter(C_ + "ser"))
+                idxs = [s_.find(C_ + "idx") for s_ in sers]
+                ords = [s_.find(C_ + "order") for s_ in sers]
+                if len(sers) >= 2 and all(e is not None for e in idxs + ords):
+                    vals = [e.get("val") for e in idxs]
+                    for e, v in zip(idxs, reversed(vals)):
+                        e.set("val", v)
+                    vals = [e.get("val") for e in ords]
+                    for e, v in zip(ords, reversed(vals)):
+                        e.set("val", v)
+                    changed = True
+            elif how == "date1904":
+                d = root.find(C_ + "date1904")
+                if d is None:
+                    d = etree.Element(C_ + "date1904")
+                    root.insert(0, d)
+                d.set("val", "1")
+                changed = True
+            if changed:
+                b = etree.tostring(root, xml_declaration=True, encoding="UTF-8", standalone=True)
+        elif n in flip_wb:
+            try:
+                zin = zipfile.ZipFile(io.BytesIO(b))
+                buf = io.BytesIO()
+                with zipfile.ZipFile(buf, "w", zipfile.ZIP_DEFLATED) as zout:
+                    for info in zin.infolist():
+                        mb = zin.read(info.filename)
+                        if info.filename == "xl/workbook.xml":
+                            t = mb.decode("utf-8")
+                            if "date1904" not in t:
+                                t = t.replace("<workbookPr", '<workbookPr date1904="1"', 1) if "<workbookPr" in t else t.replace("<sheets", '<workbookPr date1904="1"/><sheets', 1)
+                            mb = t.encode("utf-8")
+                        zout.writestr(zipfile.ZipInfo(info.filename, date_time=(1980, 1, 1, 0, 0, 0)), mb)
+                b = buf.getvalue()
+            except Exception:  # noqa: BLE001
+                pass
+        out.append((n, b))
+    return write_members(out)
+
+
 def rewrite_slides(data: bytes, how: str) -> bytes:
     """What another producer might legally write for the same slides (and charts):
     strip_tblPr       - a:tbl without its optional a:tblPr child
@@ -384,6 +449,22 @@ def rewrite_slides(data: bytes, how: str) -> bytes:
                         if k in BOOL_ATTRS and v in ("0", "1"):
                             el.set(k, "true" if v == "1" else "false")
                             changed = True
+            if how == "hover_links":
+                # another program gave every click action a hover action on the same relationship (a:hlinkHover in cNvPr,
+                # a:hlinkMouseOver in run properties): a second element of the part now refers to that relationship id
+                for hc in list(root.iter(A + "hlinkClick")):
+                    rid = hc.get(R_NS + "id")
+                    par = hc.getparent()
+                    if not rid or par is None:
+                        continue
+                    tag = A + ("hlinkHover" if etree.QName(par).localname == "cNvPr" else "hlinkMouseOver")
+                    if par.find(tag) is None:
+                        h = etree.Element(tag)
+                        h.set(R_NS + "id", rid)
+                        if hc.get("action"):
+                            h.set("action", hc.get("action"))
+                        hc.addnext(h)
+                        changed = True
             if how == "strip_cell_txBody":
                 for tc in root.iter(A + "tc"):
                     tb = tc.find(A + "txBody")
@@ -404,6 +485,8 @@ def rewrite_slides(data: bytes, how: str) -> bytes:
 
 def apply(data: bytes, x: dict) -> bytes:
     kind = x["kind"]
+    if kind == "rewrite_charts":
+        return rewrite_charts(data, x.get("how", "reverse_idx"), x.get("seed", 0))
     if kind == "rewrite_slides":
         return rewrite_slides(data, x.get("how", "strip_tblPr"))
     if kind == "drop_notes_master_rel":
